@@ -301,7 +301,7 @@ def rule_r2(ctx, rep):
                     rep.add("R2", fi.qname, "path that skips the children", f"`{name}` can return without walking the node's children: descendants that bind the "
                             f"prefix themselves are not reached, so the operation does not cover exactly the subtree", fi.loc(lp))
     rep.floor("namespace mutators", 2)
-    rep.floor("namespace writes / recursive calls", 6)
+    rep.floor("namespace writes / recursive calls", 3)
 
 
 def _all_paths_pass(ctx, fi, loop, calls):
